@@ -45,8 +45,8 @@ def contracts():
             "ht[k] = arg": [
                 # the value stored is the result of the last recursive expansion ...
                 # (a named value additionally trimmed after expansion)
-                "same_object(arg, call_result('expand_recurse', -1)) or "
-                "derived(arg, call_result('expand_recurse', -1), 'strip')",
+                "implies(not m2, same_object(arg, call_result('expand_recurse', -1)))",      # positional: verbatim
+                "implies(m2, derived(arg, call_result('expand_recurse', -1), 'strip'))",     # named (also 1=...): trimmed
                 # ... which ran in the caller's frame with everything expanded
                 "same_object(call_arg('expand_recurse', -1, 1), parent)",
                 "call_arg('expand_recurse', -1, 2) == True"],
